@@ -1,6 +1,7 @@
 package main
 
 import (
+	"bytes"
 	"encoding/hex"
 	"fmt"
 	"os"
@@ -199,7 +200,23 @@ func runSeg(prefix, svc string, segs [][]byte, expect []string, haveExpect bool)
 			viol("events-differ-from-commands", fmt.Sprintf("%s: captured %s, sent commands mean %s", svc, clip(got, 400), clip(want, 400)))
 		}
 	}
-	emit(line, got, verdict, got != "-")
+	emit(line, modelView(svc, got), verdict, got != "-")
+}
+
+// modelView: what the Lean model renders (http: method, target, payload — headers, host and proto are judged by the
+// oracle only)
+func modelView(svc, got string) string {
+	if svc != "http" || got == "-" || got == "hang" {
+		return got
+	}
+	var r []string
+	for _, e := range strings.Fields(got) {
+		f := strings.Split(strings.TrimPrefix(e, "http:"), ",")
+		if len(f) >= 5 {
+			r = append(r, "http:"+f[0]+","+f[1]+","+f[4])
+		}
+	}
+	return strings.Join(r, " ")
 }
 
 // ---- dialogues ----
@@ -564,6 +581,9 @@ func genHTTP(r *Rng) []unit {
 func runDgram(svc string, payload []byte, expect []string, haveExpect bool) {
 	lab := c04Lab()
 	line := "@dgram " + svc + " " + hx(payload)
+	if svc == "echou" || svc == "tftp" || svc == "counterstrike" || svc == "memcachedu" {
+		line = line[1:] // these decoders have a Lean model
+	}
 	verdict := "ok"
 	viol := func(sig, d string) {
 		if verdict == "ok" {
@@ -692,8 +712,8 @@ func genC04(tier string, seed uint64) {
 			us := g.gen(r)
 			b, ex := dialogue(us)
 			seg := "seg"
-			if g.svc == "http" {
-				seg = "@seg" // net/http's request parser is not modelled: oracle only
+			if g.svc == "http" && bytes.Contains(b, []byte("Transfer-Encoding")) {
+				seg = "@seg" // chunked bodies are outside the model's framing: oracle only
 			}
 			// in one piece; at every unit boundary (one write per command, pipelined and lock-step)
 			runSeg(seg, g.svc, [][]byte{b}, ex, true)
